@@ -463,10 +463,10 @@ Proof.
   intros out e. unfold rmae_err. destruct (p_has_value _); [|apply nn_two_hundred].
   cbv zeta. destruct (F64.leb _ _); [apply nn_zero|].
   destruct two_shape as (m & ex & pf & T).
-  destruct (negb _).
+  destruct (_ && _).
+  - apply nn_div; [apply nn_mul; [apply nn_two_hundred|apply nn_abs]|]. apply sp_add; apply sp_abs.
   - apply nn_mul; [apply nn_two_hundred|]. apply nn_div; [apply nn_abs|].
     apply sp_add; apply (sp_div_pos _ _ m ex pf); try exact T; apply sp_abs.
-  - apply nn_div; [apply nn_mul; [apply nn_two_hundred|apply nn_abs]|]. apply sp_add; apply sp_abs.
 Qed.
 
 (* ---- one iteration of the running mean keeps "NaN or not negative" ------ *)
